@@ -13,14 +13,22 @@ def main():
     if "--tier" in sys.argv:
         tier = sys.argv[sys.argv.index("--tier") + 1]
         args = [a for a in args if a != tier]
+    use_wt = "--wt" in sys.argv       # evaluate in a scratch worktree through the experiment override VERIF_REPO (several can run at once)
     d = os.path.abspath(args[0])
     pids = args[1:] or [c["property_id"] for c in json.load(open(os.path.join(HERE, "MANIFEST.json")))["checks"]]
     patch = os.path.join(d, "patch.diff")
-    st = subprocess.run(["git", "-C", "/repo", "status", "--porcelain", "--untracked-files=no"], capture_output=True, text=True).stdout.strip()
+    target = "/repo"
+    env = dict(os.environ)
+    if use_wt:
+        target = "/tmp/se_" + os.path.basename(d)
+        subprocess.run(["git", "-C", "/repo", "worktree", "remove", "--force", target], capture_output=True)
+        subprocess.run(["git", "-C", "/repo", "worktree", "add", "-q", "--detach", target, "HEAD"], check=True)
+        env["VERIF_REPO"] = target
+    st = subprocess.run(["git", "-C", target, "status", "--porcelain", "--untracked-files=no"], capture_output=True, text=True).stdout.strip()
     if st:
-        print("refusing: /repo has local modifications:\n" + st)
+        print("refusing: the tree has local modifications:\n" + st)
         sys.exit(2)
-    r = subprocess.run(["git", "-C", "/repo", "apply", patch], capture_output=True, text=True)
+    r = subprocess.run(["git", "-C", target, "apply", patch], capture_output=True, text=True)
     if r.returncode != 0:
         print("patch does not apply:", r.stderr)
         sys.exit(2)
@@ -28,14 +36,17 @@ def main():
     try:
         for pid in pids:
             t0 = time.time()
-            p = subprocess.run([os.path.join(HERE, "check"), pid, "--tier", tier], capture_output=True, text=True, cwd=HERE)
+            p = subprocess.run([os.path.join(HERE, "check"), pid, "--tier", tier], capture_output=True, text=True, cwd=HERE, env=env)
             lines = [l for l in p.stdout.splitlines() if l.startswith("VIOLATION") or l.startswith("  clause=") or l.startswith("  no longer checks") or l.startswith("MACHINERY")]
             res[pid] = {"exit": p.returncode, "violation": any(l.startswith("VIOLATION") for l in lines),
                         "no_failing_input": any("no-failing-input-found" in l for l in lines), "lines": [l[:300] for l in lines][:6], "wall": round(time.time() - t0, 1)}
             print(pid, "exit", p.returncode, "|", (lines[0][:160] if lines else "OK"), flush=True)
     finally:
-        subprocess.run(["git", "-C", "/repo", "checkout", "--", "."], check=True)
-    out = {"tier": tier, "results": res, "detected_by": sorted(k for k, v in res.items() if v["violation"]),
+        if use_wt:
+            subprocess.run(["git", "-C", "/repo", "worktree", "remove", "--force", target], capture_output=True)
+        else:
+            subprocess.run(["git", "-C", "/repo", "checkout", "--", "."], check=True)
+    out = {"tier": tier, "where": "scratch worktree via VERIF_REPO" if use_wt else "/repo (patch applied, then git checkout -- .)", "results": res, "detected_by": sorted(k for k, v in res.items() if v["violation"]),
            "detected_with_failing_input": sorted(k for k, v in res.items() if v["violation"] and not v["no_failing_input"])}
     json.dump(out, open(os.path.join(d, "eval.json"), "w"), indent=1)
     print("detected by:", out["detected_by"], "| with failing input:", out["detected_with_failing_input"])
